@@ -74,7 +74,8 @@ def make_entries(n_slots, scheme, span_min, f0_str, rphase0_str, ncoeff, spellin
         tm_print = F(tmid_str)
         rph = r0 + f0 * 60 * (tm_print - t0) * 1440
         rph = F(round(rph * 10 ** 6), 10 ** 6)
-        rphase_str = f"{rph.numerator // rph.denominator}.{(rph.numerator % rph.denominator) * 10 ** 6 // rph.denominator:06d}"
+        ar = abs(rph)           # sign-magnitude decimal, as tempo prints it (F20.6)
+        rphase_str = ("-" if rph < 0 else "") + f"{ar.numerator // ar.denominator}.{(ar.numerator % ar.denominator) * 10 ** 6 // ar.denominator:06d}"
         cs = [fmt_coeff(base[i] * (1 + 0.01 * k) * (-1 if (i == 3 and k % 2) else 1), spelling) for i in range(ncoeff)]
         out.append(Entry(psr, tmid_str, rphase_str, f0_str, obs, span_min, cs))
     return out
